@@ -66,11 +66,10 @@ def opCmp2 : RM Res := do
         | .shape i _, x => inner i x
         | .opw _, x => x
       -- the un-coupled vector is recomputed here (one multiply-add, rounded): next to a sliver arc that may land an
-      -- ulp outside, so with a parallelogram in the stack each joint may be accepted 1e-9 to either side
+      -- ulp outside, so with a parallelogram in the stack each arc is widened by 1e-9 (relative) on either side
       let nearOk := fun (x : J6 Float) =>
         (List.zip x.toList (List.zip c.centers.toList c.tolerances.toList)).all (fun (v, (ce, tol)) =>
-          let e := 1e-9 * (1.0 + v.abs)
-          insideBounds v ce tol || insideBounds (v + e) ce tol || insideBounds (v - e) ce tol)
+          insideBounds v ce (tol + 1e-9 * (1.0 + v.abs)))
       let okc := fun (s : J6 Float) => if hasPara k then nearOk (inner k s) else c.compliant (inner k s)
       let surely := fun (s : J6 Float) => if hasPara k then robustCompliant c (inner k s) else c.compliant (inner k s)
       let badc := a.find? (fun s => !okc s)
